@@ -113,7 +113,12 @@ impl TraitImpl for Zeroize {
 		data: &Data,
 	) -> TokenStream {
 		if data.is_empty(**trait_) {
-			TokenStream::new()
+			// Nothing to zeroize, but the `match` still has to be exhaustive.
+			let self_pattern = data.self_pattern();
+
+			quote! {
+				#self_pattern => { }
+			}
 		} else {
 			match data.simple_type() {
 				SimpleType::Struct(fields) | SimpleType::Tuple(fields) => {
